@@ -187,6 +187,17 @@ def _stream_worker(a):
                 k = next((i for i in range(min(len(out), len(ref_out))) if out[i] != ref_out[i]), min(len(out), len(ref_out)))
                 diff = "stdout differs at line %d with reads of at most %d bytes: %r vs %r" % (k, mx, out[k:k + 2], ref_out[k:k + 2])
             results.append((("chunk<=%d" % mx) if mx > 0 else ("chunk<=%d+readfaults" % -mx), data, r, diff))
+        if not ref_r.hang:
+            # the same stream over ONE socket that is the daemon's standard input and output (the way an IRC server runs it), with a
+            # reader who falls behind: the daemon's writes wait for the reader, what it says is the same
+            out, r = daemon.run_batch(b, conf, data, leaks=True, timeout=WD, transport="socketpair")
+            out = comparable(out)
+            diff = None
+            if r.clean() and ref_r.clean() and out != ref_out:
+                k = next((i for i in range(min(len(out), len(ref_out))) if out[i] != ref_out[i]), min(len(out), len(ref_out)))
+                diff = "stdout differs at line %d when input and output share a socket and the reader falls behind (%d lines instead of %d): %r vs %r" % (
+                    k, len(out), len(ref_out), out[k:k + 2], ref_out[k:k + 2])
+            results.append(("chunk-shared-socket", data, r, diff))
     elif kind == "timer":
         # real request timers (1 s): the stream stops in the middle for 1.6 s with stdin open, so the timers of every request that is
         # pending - complete or not, answered NO / OK / not at all, with or without its D - expire; then the rest follows
@@ -412,6 +423,8 @@ def run(chk, tier, scale=1.0):
                 chk.count("runs_that_reported_old_requests")
             if "readfaults" in p["tag"]:
                 chk.count("runs_with_injected_read_errors")
+            if p["tag"] == "chunk-shared-socket":
+                chk.count("runs_over_a_shared_socket_with_a_slow_reader")
             chk.count("input_bytes", p["len"])
             if p["clean"]:
                 chk.count("clean_exits")
@@ -421,6 +434,8 @@ def run(chk, tier, scale=1.0):
                     seen_crash[ck] = p
             if p["diff"]:
                 rule = "chunking" if kind == "chunk" else "junk-mixing"
+                if p["tag"] == "chunk-shared-socket":
+                    rule = "shared-socket"
                 chk.violation(Violation("C08", rule, rule, p["diff"], {"config": p["conf"], "input": p["data"].decode("latin-1"), "tag": p["tag"]}))
             elif kind in ("chunk", "junk") and p["clean"] and not p["tag"].endswith("ref"):
                 chk.count("differential_pairs_equal")
@@ -466,8 +481,13 @@ def replay(chk, rep):
     b = prun.build_daemon("c08-replay")
     w = rep["witness"]
     if w.get("wellformed"):
-        import prun
         return prun.replay_witness(chk, rep, [])
+    if w.get("tag") == "chunk-shared-socket":
+        conf = w["config"].replace("c08-quick", "c08-replay").replace("c08-thorough", "c08-replay")
+        o1, r1 = daemon.run_batch(b, conf, w["input"].encode("latin-1"), leaks=True)
+        o2, r2 = daemon.run_batch(b, conf, w["input"].encode("latin-1"), leaks=True, transport="socketpair")
+        print(len(o1), len(o2), r1.describe(), r2.describe())
+        return 1 if comparable(o1) != comparable(o2) or not r1.clean() or not r2.clean() else 0
     if w.get("memcheck"):
         import build as buildmod
         bp = buildmod.build_daemon(buildmod.fresh_dir("c08p-replay"), "plain")
